@@ -73,3 +73,33 @@ def interactive_rebase_reorder_in_hooks_mode():
     if kw:
         return ["wrapper-mode:" + k for k in kw], dw
     return kh, dh
+
+
+def pull_rebase_drops_local_commit_that_upstream_has():
+    """D65: a local commit with S1's line is also upstream as an identical patch (cherry-picked there by plain git, after an upstream-only
+    commit); `git pull --rebase --autostash` drops the local commit as already applied. Through the wrapper S1's line stays S1's, with
+    git-ai installed as git hooks it becomes human (upstream's copy has no note and the dropped commit's note is not mapped onto it)."""
+    from ..engine import Scenario
+    from .c02 import _mk
+    out = {}
+    for mode in ("wrapper", "hooks"):
+        s = _mk("d65" + mode)
+        s.destroy()
+        cls = type(s)
+        s = cls.__new__(cls)
+        Scenario.__init__(s, "Wd65", 0, 0, dict(hostile_content=False, decoys=False, sessions=2, files=2, human_ckpt_rate=0.0), world_kwargs=dict(mode=mode))
+        try:
+            s.files = ["f.txt", "g.txt"]
+            s.human_write("f.txt", [s.line("human") for _ in range(4)]); s.human_write("g.txt", [s.line("human") for _ in range(4)]); s.commit_all("init")
+            s.op_pull(kind="rebase-autostash-dup")
+            s.check_notes("w"); s.commit_all("final"); s.check_blame_tip("w", rule="C13")
+            out[mode] = s.kinds()[0]
+        finally:
+            s.destroy()
+    kinds = []
+    if out["wrapper"]:
+        kinds += ["wrapper:" + k for k in out["wrapper"]]
+    if any(k.startswith("C13/lost") for k in out["hooks"]):
+        kinds.append("C13/lost@hooks-pull-dup")
+    kinds += [k for k in out["hooks"] if not k.startswith("C13/lost")]
+    return kinds, [out]
